@@ -12,14 +12,19 @@ open Pymeeus Pymeeus.PR Pymeeus.GenR.Kepler Pymeeus.GenR.Ellipsoid Pymeeus.Refin
 
 theorem wgs84_valid : Valid WGS84 := ⟨by norm_num [WGS84], by norm_num [WGS84], by norm_num [WGS84]⟩
 
+theorem sin_pi0_eq : sin_pi0 = Real.sin (8.794 / 3600 * (π / 180)) := by
+  have h : reduce_deg ((1.0 : ℝ) * (0 + 0 / 60.0 + 8.794 / 3600.0)) = 8.794 / 3600 := by
+    rw [reduce_deg_small (by norm_num [abs_lt])]; norm_num
+  unfold sin_pi0 psin pradians; rw [h]
+
 /-- `sin 8.794''` is positive. -/
 theorem sin_pi0_pos : 0 < sin_pi0 := by
-  unfold sin_pi0 psin pradians
+  rw [sin_pi0_eq]
   have hpi := Real.pi_pos
   have h3 := Real.pi_lt_d2
   apply Real.sin_pos_of_pos_of_lt_pi
-  · norm_num; positivity
-  · norm_num; nlinarith
+  · positivity
+  · nlinarith
 
 theorem angle_of_rad_arg (z : ℂ) : angle_of_rad (Complex.arg z) = Complex.arg z * (180 / π) := by
   apply angle_of_rad_small
@@ -32,66 +37,156 @@ def rsin (lat height : ℝ) : ℝ :=
 def rcos (lat height : ℝ) : ℝ :=
   Real.cos (Real.arctan ((1 - WGS84.f) * Real.tan (pradians lat))) + height / WGS84.a * Real.cos (pradians lat)
 
+/-! ### `parallax_correction`: the topocentric vector `w = u − sin π · (ρ cos φ' cos H, ρ cos φ' sin H, ρ sin φ')`
+    in the frame whose x axis points to the right ascension of the body, in units of the distance -/
+
+def wx (dec lat dist ha height : ℝ) : ℝ :=
+  Real.cos (pradians dec) - rcos lat height * (sin_pi0 / dist) * Real.cos (pradians ha)
+def wy (lat dist ha height : ℝ) : ℝ := (-rcos lat height) * (sin_pi0 / dist) * Real.sin (pradians ha)
+def wz (dec lat dist height : ℝ) : ℝ := Real.sin (pradians dec) - rsin lat height * (sin_pi0 / dist)
+def hyp (dec lat dist ha height : ℝ) : ℝ :=
+  Real.sqrt (wy lat dist ha height * wy lat dist ha height + wx dec lat dist ha height * wx dec lat dist ha height)
+
 /-- the correction to the right ascension, degrees -/
 def delta_a (dec lat dist ha height : ℝ) : ℝ :=
-  Complex.arg ⟨Real.cos (pradians dec) - rcos lat height * (sin_pi0 / dist) * Real.cos (pradians ha),
-               (-rcos lat height) * (sin_pi0 / dist) * Real.sin (pradians ha)⟩ * (180 / π)
+  Complex.arg ⟨wx dec lat dist ha height, wy lat dist ha height⟩ * (180 / π)
 
 /-- the corrected declination, degrees -/
 def dec' (dec lat dist ha height : ℝ) : ℝ :=
-  Complex.arg ⟨Real.cos (pradians dec) - rcos lat height * (sin_pi0 / dist) * Real.cos (pradians ha),
-               (Real.sin (pradians dec) - rsin lat height * (sin_pi0 / dist))
-                 * Real.cos (pradians (delta_a dec lat dist ha height))⟩ * (180 / π)
+  Complex.arg ⟨hyp dec lat dist ha height, wz dec lat dist height⟩ * (180 / π)
 
 theorem parallax_correction_eq (ra dec lat : ℝ) {dist : ℝ} (hd : dist ≠ 0) (ha height : ℝ) :
     parallax_correction ra dec lat dist ha height =
       .ok (angle_add ra (delta_a dec lat dist ha height), dec' dec lat dist ha height) := by
+  have hnn : 0 ≤ wy lat dist ha height * wy lat dist ha height + wx dec lat dist ha height * wx dec lat dist ha height := by
+    nlinarith [mul_self_nonneg (wy lat dist ha height), mul_self_nonneg (wx dec lat dist ha height)]
+  unfold wx wy rcos at hnn
   unfold parallax_correction
   simp only [fdiv_ok hd, rho_sinphi_eq wgs84_valid, rho_cosphi_eq wgs84_valid, patan2, psin, pcos, angle_of_rad_arg]
+  rw [fsqrt_ok hnn]
   rfl
 
-
-theorem pradians_zero : pradians 0 = 0 := by simp [pradians]
-
-theorem rcos_equator_sea_level : rcos 0 0 = 1 := by
-  unfold rcos; rw [pradians_zero]; simp
-
-theorem rsin_equator_sea_level : rsin 0 0 = 0 := by
-  unfold rsin; rw [pradians_zero]; simp
-
-/-- Body at the celestial pole, observer on the equator at sea level, hour angle 0: the corrected declination comes
-    out in `(-180°, -90°)`. -/
-theorem polar_dec {dist : ℝ} (hd : 0 < dist) :
-    -180 < dec' 90 0 dist 0 0 ∧ dec' 90 0 dist 0 0 < -90 := by
+/-- "declination in [-90, 90]": the second atan2 argument is a square root, hence non-negative. -/
+theorem dec'_range (dec lat dist ha height : ℝ) :
+    -90 ≤ dec' dec lat dist ha height ∧ dec' dec lat dist ha height ≤ 90 := by
   have hpi := Real.pi_pos
-  have hsp : 0 < sin_pi0 / dist := div_pos sin_pi0_pos hd
-  have h90 : pradians 90 = π / 2 := by unfold pradians; ring
-  have hda : delta_a 90 0 dist 0 0 = 180 := by
-    unfold delta_a
-    rw [rcos_equator_sea_level, pradians_zero, h90, Real.cos_pi_div_two, Real.sin_zero, Real.cos_zero]
-    have : (⟨0 - 1 * (sin_pi0 / dist) * 1, -1 * (sin_pi0 / dist) * 0⟩ : ℂ) = ((-(sin_pi0 / dist) : ℝ) : ℂ) := by
-      apply Complex.ext <;> simp
-    rw [this, Complex.arg_ofReal_of_neg (by linarith)]
-    field_simp
-  unfold dec'
-  rw [hda, rcos_equator_sea_level, rsin_equator_sea_level, pradians_zero, h90, Real.cos_pi_div_two, Real.sin_pi_div_two,
-    Real.cos_zero]
-  have h180 : pradians 180 = π := by unfold pradians; ring
-  rw [h180, Real.cos_pi]
-  set z : ℂ := ⟨0 - 1 * (sin_pi0 / dist) * 1, (1 - 0 * (sin_pi0 / dist)) * -1⟩ with hz
-  have hre : z.re < 0 := by simp [hz]; exact hsp
-  have him : z.im < 0 := by simp [hz]
-  have h1 : Complex.arg z < -(π / 2) := by
-    by_contra hcon
-    have := Complex.neg_pi_div_two_le_arg_iff.mp (not_lt.mp hcon)
-    rcases this with h | h <;> linarith
-  have h2 := Complex.neg_pi_lt_arg z
+  have h : |Complex.arg ⟨hyp dec lat dist ha height, wz dec lat dist height⟩| ≤ π / 2 := by
+    rw [Complex.abs_arg_le_pi_div_two_iff]; exact Real.sqrt_nonneg _
+  obtain ⟨h1, h2⟩ := abs_le.mp h
   have hpos : (0 : ℝ) < 180 / π := by positivity
+  unfold dec'
   constructor
-  · calc (-180 : ℝ) = -π * (180 / π) := by field_simp
-      _ < Complex.arg z * (180 / π) := mul_lt_mul_of_pos_right h2 hpos
-  · calc Complex.arg z * (180 / π) < -(π / 2) * (180 / π) := mul_lt_mul_of_pos_right h1 hpos
-      _ = -90 := by field_simp; ring
+  · calc (-90 : ℝ) = -(π / 2) * (180 / π) := by field_simp; ring
+      _ ≤ _ := mul_le_mul_of_nonneg_right h1 hpos.le
+  · calc _ ≤ π / 2 * (180 / π) := mul_le_mul_of_nonneg_right h2 hpos.le
+      _ = 90 := by field_simp; ring
+
+
+/-! ### the displacement is at most the horizontal parallax -/
+
+/-- Geometry: for a unit vector `u` and a displacement `o` with `|o|² = s2 < 1`, the angle `p` between `u` and
+    `w = u − o` satisfies `cos p ≥ sqrt(1 − s2)`, i.e. `p ≤ asin |o|`.  Written without division:
+    `sqrt(1 − s2) · |w| ≤ u·w`. -/
+theorem sep_bound {u1 u2 u3 o1 o2 o3 : ℝ} (hu : u1 ^ 2 + u2 ^ 2 + u3 ^ 2 = 1) (ho : o1 ^ 2 + o2 ^ 2 + o3 ^ 2 < 1) :
+    Real.sqrt (1 - (o1 ^ 2 + o2 ^ 2 + o3 ^ 2)) * Real.sqrt ((u1 - o1) ^ 2 + (u2 - o2) ^ 2 + (u3 - o3) ^ 2)
+      ≤ u1 * (u1 - o1) + u2 * (u2 - o2) + u3 * (u3 - o3) := by
+  set s2 := o1 ^ 2 + o2 ^ 2 + o3 ^ 2 with hs2
+  set c := u1 * o1 + u2 * o2 + u3 * o3 with hc
+  have hs20 : 0 ≤ s2 := by positivity
+  -- Cauchy-Schwarz through Lagrange's identity
+  have hcs : c ^ 2 ≤ s2 := by
+    have : s2 - c ^ 2 = (u1 * o2 - u2 * o1) ^ 2 + (u1 * o3 - u3 * o1) ^ 2 + (u2 * o3 - u3 * o2) ^ 2 := by
+      rw [hs2, hc]
+      have : (o1 ^ 2 + o2 ^ 2 + o3 ^ 2) = (u1 ^ 2 + u2 ^ 2 + u3 ^ 2) * (o1 ^ 2 + o2 ^ 2 + o3 ^ 2) := by rw [hu, one_mul]
+      rw [this]; ring
+    nlinarith [sq_nonneg (u1 * o2 - u2 * o1), sq_nonneg (u1 * o3 - u3 * o1), sq_nonneg (u2 * o3 - u3 * o2)]
+  have hc1 : c < 1 := by nlinarith [sq_nonneg (c - 1), sq_nonneg (c + 1)]
+  have hdot : u1 * (u1 - o1) + u2 * (u2 - o2) + u3 * (u3 - o3) = 1 - c := by rw [hc]; nlinarith
+  have hW : (u1 - o1) ^ 2 + (u2 - o2) ^ 2 + (u3 - o3) ^ 2 = 1 - 2 * c + s2 := by rw [hc, hs2]; nlinarith
+  rw [hdot, hW, ← Real.sqrt_mul (by linarith)]
+  rw [show (1 - c) = Real.sqrt ((1 - c) ^ 2) from (Real.sqrt_sq (by linarith)).symm]
+  apply Real.sqrt_le_sqrt
+  nlinarith [sq_nonneg (c - s2)]
+
+/-- Cosine of the angular separation between `(α, δ)` and `(α + Δα, δ')` (degrees). -/
+def cos_sep (dec dalpha decp : ℝ) : ℝ :=
+  Real.sin (pradians dec) * Real.sin (pradians decp)
+    + Real.cos (pradians dec) * Real.cos (pradians decp) * Real.cos (pradians dalpha)
+
+/-- Core of the bound, on opaque components: `w = (X, Y, Z)`, `H = sqrt(Y² + X²)`. -/
+theorem cos_sep_core {cd sd X Y Z H s2 : ℝ} (hu : cd ^ 2 + sd ^ 2 = 1) (hH : H = Real.sqrt (Y * Y + X * X))
+    (hb : Real.sqrt (1 - s2) * Real.sqrt (X ^ 2 + Y ^ 2 + Z ^ 2) ≤ cd * X + sd * Z)
+    (hdot : 0 < cd * X + sd * Z) :
+    Real.sqrt (1 - s2) ≤ sd * Real.sin (Complex.arg ⟨H, Z⟩)
+        + cd * Real.cos (Complex.arg ⟨H, Z⟩) * Real.cos (Complex.arg ⟨X, Y⟩) := by
+  have hHsq : H ^ 2 = X ^ 2 + Y ^ 2 := by
+    rw [hH, Real.sq_sqrt (by nlinarith [mul_self_nonneg X, mul_self_nonneg Y])]; ring
+  have hn1 : ‖(⟨X, Y⟩ : ℂ)‖ = H := by
+    rw [Complex.norm_eq_sqrt_sq_add_sq, hH]; congr 1; ring
+  have hn2 : ‖(⟨H, Z⟩ : ℂ)‖ = Real.sqrt (X ^ 2 + Y ^ 2 + Z ^ 2) := by
+    rw [Complex.norm_eq_sqrt_sq_add_sq]; congr 1; show H ^ 2 + Z ^ 2 = _; rw [hHsq]
+  have hc1 : H * Real.cos (Complex.arg ⟨X, Y⟩) = X := by
+    have := Complex.norm_mul_cos_arg (⟨X, Y⟩ : ℂ); rwa [hn1] at this
+  have hc2 : Real.sqrt (X ^ 2 + Y ^ 2 + Z ^ 2) * Real.cos (Complex.arg ⟨H, Z⟩) = H := by
+    have := Complex.norm_mul_cos_arg (⟨H, Z⟩ : ℂ); rwa [hn2] at this
+  have hs2 : Real.sqrt (X ^ 2 + Y ^ 2 + Z ^ 2) * Real.sin (Complex.arg ⟨H, Z⟩) = Z := by
+    have := Complex.norm_mul_sin_arg (⟨H, Z⟩ : ℂ); rwa [hn2] at this
+  obtain ⟨W, hW⟩ : ∃ W, W = Real.sqrt (X ^ 2 + Y ^ 2 + Z ^ 2) := ⟨_, rfl⟩
+  rw [← hW] at hb hc2 hs2
+  have hW0 : 0 ≤ W := by rw [hW]; exact Real.sqrt_nonneg _
+  have hkey : W * (sd * Real.sin (Complex.arg ⟨H, Z⟩)
+        + cd * Real.cos (Complex.arg ⟨H, Z⟩) * Real.cos (Complex.arg ⟨X, Y⟩)) = cd * X + sd * Z := by
+    have : W * (sd * Real.sin (Complex.arg ⟨H, Z⟩)
+        + cd * Real.cos (Complex.arg ⟨H, Z⟩) * Real.cos (Complex.arg ⟨X, Y⟩))
+        = sd * (W * Real.sin (Complex.arg ⟨H, Z⟩))
+          + cd * ((W * Real.cos (Complex.arg ⟨H, Z⟩)) * Real.cos (Complex.arg ⟨X, Y⟩)) := by ring
+    rw [this, hs2, hc2, hc1]; ring
+  have hWpos : 0 < W := by
+    rcases hW0.lt_or_eq with h | h
+    · exact h
+    · rw [← h, zero_mul] at hkey; linarith
+  rw [← hkey, mul_comm] at hb
+  exact le_of_mul_le_mul_left hb hWpos
+
+theorem parallax_correction_bound (dec lat dist ha height : ℝ)
+    (hs : (sin_pi0 / dist) ^ 2 * (rcos lat height ^ 2 + rsin lat height ^ 2) < 1) :
+    Real.sqrt (1 - (sin_pi0 / dist) ^ 2 * (rcos lat height ^ 2 + rsin lat height ^ 2))
+      ≤ cos_sep dec (delta_a dec lat dist ha height) (dec' dec lat dist ha height) := by
+  obtain ⟨sp, hsp⟩ : ∃ sp, sp = sin_pi0 / dist := ⟨_, rfl⟩
+  obtain ⟨A, hA⟩ : ∃ A, A = rcos lat height := ⟨_, rfl⟩
+  obtain ⟨B, hB⟩ : ∃ B, B = rsin lat height := ⟨_, rfl⟩
+  obtain ⟨cd, hcd⟩ : ∃ cd, cd = Real.cos (pradians dec) := ⟨_, rfl⟩
+  obtain ⟨sd, hsd⟩ : ∃ sd, sd = Real.sin (pradians dec) := ⟨_, rfl⟩
+  obtain ⟨ch, hch⟩ : ∃ ch, ch = Real.cos (pradians ha) := ⟨_, rfl⟩
+  obtain ⟨sh, hsh⟩ : ∃ sh, sh = Real.sin (pradians ha) := ⟨_, rfl⟩
+  have hu : cd ^ 2 + sd ^ 2 = 1 := by rw [hcd, hsd]; nlinarith [Real.sin_sq_add_cos_sq (pradians dec)]
+  have hh : ch ^ 2 + sh ^ 2 = 1 := by rw [hch, hsh]; nlinarith [Real.sin_sq_add_cos_sq (pradians ha)]
+  have hX : wx dec lat dist ha height = cd - A * sp * ch := by unfold wx; rw [hcd, hA, hsp, hch]
+  have hY : wy lat dist ha height = 0 - A * sp * sh := by unfold wy; rw [hA, hsp, hsh]; ring
+  have hZ : wz dec lat dist height = sd - B * sp := by unfold wz; rw [hsd, hB, hsp]
+  rw [← hsp, ← hA, ← hB] at hs ⊢
+  have ho : (A * sp * ch) ^ 2 + (A * sp * sh) ^ 2 + (B * sp) ^ 2 = sp ^ 2 * (A ^ 2 + B ^ 2) := by nlinarith
+  have hu3 : cd ^ 2 + (0:ℝ) ^ 2 + sd ^ 2 = 1 := by nlinarith
+  have hb := sep_bound (u1 := cd) (u2 := 0) (u3 := sd) (o1 := A * sp * ch) (o2 := A * sp * sh) (o3 := B * sp) hu3
+    (by rw [ho]; exact hs)
+  rw [ho, ← hX, ← hY, ← hZ] at hb
+  -- u·w = 1 - u·o > 0
+  have hdot : 0 < cd * wx dec lat dist ha height + sd * wz dec lat dist height := by
+    have hcs : (cd * (A * sp * ch) + sd * (B * sp)) ^ 2 ≤ sp ^ 2 * (A ^ 2 + B ^ 2) := by
+      rw [← ho]
+      nlinarith [sq_nonneg (cd * (A * sp * sh)), sq_nonneg (cd * (B * sp) - sd * (A * sp * ch)), sq_nonneg (sd * (A * sp * sh))]
+    rw [hX, hZ]
+    nlinarith [sq_nonneg (cd * (A * sp * ch) + sd * (B * sp) - 1), sq_nonneg (cd * (A * sp * ch) + sd * (B * sp) + 1)]
+  have hb2 : Real.sqrt (1 - sp ^ 2 * (A ^ 2 + B ^ 2))
+      * Real.sqrt (wx dec lat dist ha height ^ 2 + wy lat dist ha height ^ 2 + wz dec lat dist height ^ 2)
+      ≤ cd * wx dec lat dist ha height + sd * wz dec lat dist height := by
+    have e : cd * wx dec lat dist ha height + 0 * wy lat dist ha height + sd * wz dec lat dist height
+        = cd * wx dec lat dist ha height + sd * wz dec lat dist height := by ring
+    rw [← e]; exact hb
+  have := cos_sep_core (H := hyp dec lat dist ha height) hu rfl hb2 hdot
+  unfold cos_sep delta_a dec'
+  rw [radians_degrees, radians_degrees, ← hcd, ← hsd]
+  exact this
 
 
 /-! ### the corrections vanish as the distance grows -/
@@ -104,23 +199,30 @@ theorem tendsto_mk {α : Type} {l : Filter α} {f g : α → ℝ} {a b : ℝ} (h
 theorem sp_tendsto : Tendsto (fun dist : ℝ => sin_pi0 / dist) atTop (𝓝 0) :=
   tendsto_const_nhds.div_atTop tendsto_id
 
+theorem wx_tendsto (dec lat ha height : ℝ) :
+    Tendsto (fun dist => wx dec lat dist ha height) atTop (𝓝 (Real.cos (pradians dec))) := by
+  have := ((tendsto_const_nhds (x := rcos lat height)).mul sp_tendsto).mul_const (Real.cos (pradians ha))
+  simpa [wx] using (tendsto_const_nhds (x := Real.cos (pradians dec))).sub this
+
+theorem wy_tendsto (lat ha height : ℝ) : Tendsto (fun dist => wy lat dist ha height) atTop (𝓝 0) := by
+  have := ((tendsto_const_nhds (x := -rcos lat height)).mul sp_tendsto).mul_const (Real.sin (pradians ha))
+  simpa [wy] using this
+
+theorem wz_tendsto (dec lat height : ℝ) :
+    Tendsto (fun dist => wz dec lat dist height) atTop (𝓝 (Real.sin (pradians dec))) := by
+  have h := (tendsto_const_nhds (x := rsin lat height)).mul sp_tendsto
+  simpa [wz] using (tendsto_const_nhds (x := Real.sin (pradians dec))).sub h
+
 theorem delta_a_tendsto (dec lat ha height : ℝ) (hdec : 0 < Real.cos (pradians dec)) :
     Tendsto (fun dist => delta_a dec lat dist ha height) atTop (𝓝 0) := by
-  have hre : Tendsto (fun dist : ℝ => Real.cos (pradians dec) - rcos lat height * (sin_pi0 / dist) * Real.cos (pradians ha))
-      atTop (𝓝 (Real.cos (pradians dec))) := by
-    have := ((tendsto_const_nhds (x := rcos lat height)).mul sp_tendsto).mul_const (Real.cos (pradians ha))
-    simpa using (tendsto_const_nhds (x := Real.cos (pradians dec))).sub this
-  have him : Tendsto (fun dist : ℝ => (-rcos lat height) * (sin_pi0 / dist) * Real.sin (pradians ha)) atTop (𝓝 0) := by
-    have := ((tendsto_const_nhds (x := -rcos lat height)).mul sp_tendsto).mul_const (Real.sin (pradians ha))
-    simpa using this
-  have hz := tendsto_mk hre him
+  have hz := tendsto_mk (wx_tendsto dec lat ha height) (wy_tendsto lat ha height)
   have hslit : (⟨Real.cos (pradians dec), 0⟩ : ℂ) ∈ Complex.slitPlane := Or.inl hdec
   have harg := (Complex.continuousAt_arg hslit).tendsto.comp hz
   have h0 : Complex.arg ⟨Real.cos (pradians dec), 0⟩ = 0 := by
     rw [Complex.arg_eq_zero_iff]; exact ⟨hdec.le, rfl⟩
   rw [h0] at harg
   have := harg.mul_const (180 / π)
-  simpa [delta_a] using this
+  simpa [delta_a, Function.comp_def] using this
 
 theorem dec'_tendsto (dec lat ha height : ℝ) (h1 : -90 < dec) (h2 : dec < 90) :
     Tendsto (fun dist => dec' dec lat dist ha height) atTop (𝓝 dec) := by
@@ -128,21 +230,15 @@ theorem dec'_tendsto (dec lat ha height : ℝ) (h1 : -90 < dec) (h2 : dec < 90) 
   have hd1 : -(π / 2) < pradians dec := by unfold pradians; nlinarith
   have hd2 : pradians dec < π / 2 := by unfold pradians; nlinarith
   have hdec : 0 < Real.cos (pradians dec) := Real.cos_pos_of_mem_Ioo ⟨hd1, hd2⟩
-  have hre : Tendsto (fun dist : ℝ => Real.cos (pradians dec) - rcos lat height * (sin_pi0 / dist) * Real.cos (pradians ha))
-      atTop (𝓝 (Real.cos (pradians dec))) := by
-    have := ((tendsto_const_nhds (x := rcos lat height)).mul sp_tendsto).mul_const (Real.cos (pradians ha))
-    simpa using (tendsto_const_nhds (x := Real.cos (pradians dec))).sub this
-  have hda := delta_a_tendsto dec lat ha height hdec
-  have hcos : Tendsto (fun dist => Real.cos (pradians (delta_a dec lat dist ha height))) atTop (𝓝 1) := by
-    have hc : Continuous (fun x : ℝ => Real.cos (pradians x)) := by unfold pradians; fun_prop
-    have := (hc.tendsto 0).comp hda
-    simpa [pradians, Function.comp_def] using this
-  have him : Tendsto (fun dist : ℝ => (Real.sin (pradians dec) - rsin lat height * (sin_pi0 / dist))
-      * Real.cos (pradians (delta_a dec lat dist ha height))) atTop (𝓝 (Real.sin (pradians dec))) := by
-    have h := (tendsto_const_nhds (x := rsin lat height)).mul sp_tendsto
-    have := ((tendsto_const_nhds (x := Real.sin (pradians dec))).sub h).mul hcos
-    simpa using this
-  have hz := tendsto_mk hre him
+  have hx := wx_tendsto dec lat ha height
+  have hy := wy_tendsto lat ha height
+  have hh : Tendsto (fun dist => hyp dec lat dist ha height) atTop (𝓝 (Real.cos (pradians dec))) := by
+    have := ((hy.mul hy).add (hx.mul hx)).sqrt
+    have e : Real.sqrt (0 * 0 + Real.cos (pradians dec) * Real.cos (pradians dec)) = Real.cos (pradians dec) := by
+      rw [zero_mul, zero_add, Real.sqrt_mul_self hdec.le]
+    rw [e] at this
+    exact this
+  have hz := tendsto_mk hh (wz_tendsto dec lat height)
   have hslit : (⟨Real.cos (pradians dec), Real.sin (pradians dec)⟩ : ℂ) ∈ Complex.slitPlane := Or.inl hdec
   have harg := (Complex.continuousAt_arg hslit).tendsto.comp hz
   have h0 : Complex.arg ⟨Real.cos (pradians dec), Real.sin (pradians dec)⟩ = pradians dec := by
@@ -155,63 +251,6 @@ theorem dec'_tendsto (dec lat ha height : ℝ) (h1 : -90 < dec) (h2 : dec < 90) 
   have h3 := harg.mul_const (180 / π)
   have h4 : pradians dec * (180 / π) = dec := by unfold pradians; field_simp
   rw [h4] at h3
-  simpa [dec'] using h3
-
-
-/-! ### `parallax_ecliptical`: the folding of the latitude -/
-
-theorem to_positive_nonneg {x : ℝ} (h : 0 ≤ x) : to_positive x = x := by
-  simp [to_positive, plt, not_lt.mpr h]
-
-theorem to_positive_neg {x : ℝ} (h : x < 0) (h2 : -360 < x) : to_positive x = 360 + x := by
-  have e : (360.0 : ℝ) = 360 := by norm_num
-  have : ¬ ((360 : ℝ) ≤ 360 - |x|) := by rw [abs_of_neg h]; linarith
-  simp only [to_positive, plt, h, decide_true, if_true, ple, pabs, e, this, decide_false]
-  rw [abs_of_neg h]; simp
-
-/-- Body on the meridian of the vernal equinox (λ = 0) at a southern ecliptic latitude, observer on the equator at
-    sea level, sidereal time 0: the model returns `(0, 180 + x, 0)` with `x ∈ (-90, 0)` the true topocentric
-    latitude, i.e. a "latitude" in `(90°, 180°)`. -/
-theorem ecliptical_south {lat dist : ℝ} (obl : ℝ) (h1 : -90 < lat) (h2 : lat < 0) (hd : 0 < dist)
-    (hn : sin_pi0 / dist < Real.cos (pradians lat)) :
-    ∃ tl, parallax_ecliptical 0 lat 0 0 obl 0 dist 0 = .ok (0, tl, 0) ∧ 90 < tl ∧ tl < 180 := by
-  have hpi := Real.pi_pos
-  have hb1 : -(π / 2) < pradians lat := by unfold pradians; nlinarith
-  have hb2 : pradians lat < 0 := by unfold pradians; nlinarith
-  have hsin : Real.sin (pradians lat) < 0 := Real.sin_neg_of_neg_of_neg_pi_lt hb2 (by linarith)
-  set n := Real.cos (pradians lat) - sin_pi0 / dist with hndef
-  have hnpos : 0 < n := by rw [hndef]; linarith
-  set z : ℂ := ⟨n, Real.sin (pradians lat)⟩ with hz
-  have harg1 : -(π / 2) < Complex.arg z := by
-    rw [Complex.neg_pi_div_two_lt_arg_iff]; exact Or.inl hnpos
-  have harg2 : Complex.arg z < 0 := Complex.arg_neg_iff.mpr hsin
-  have hpos : (0 : ℝ) < 180 / π := by positivity
-  set x := Complex.arg z * (180 / π) with hx
-  have hx1 : -90 < x := by
-    calc (-90 : ℝ) = -(π / 2) * (180 / π) := by field_simp; ring
-      _ < x := mul_lt_mul_of_pos_right harg1 hpos
-  have hx2 : x < 0 := mul_neg_of_neg_of_pos harg2 hpos
-  refine ⟨180 + x, ?_, by linarith, by linarith⟩
-  have e90 : (90.0 : ℝ) = 90 := by norm_num
-  have e180 : (180.0 : ℝ) = 180 := by norm_num
-  have hz0 : Complex.arg (⟨n, 0⟩ : ℂ) = 0 := by rw [Complex.arg_eq_zero_iff]; exact ⟨hnpos.le, rfl⟩
-  have hred1 : reduce_deg |360 + x| = 360 + x := by
-    rw [abs_of_pos (by linarith)]; apply reduce_deg_small; rw [abs_of_pos (by linarith)]; linarith
-  have hred2 : reduce_deg (360 + x + -180) = 180 + x := by
-    rw [reduce_deg_small (by rw [abs_of_pos (by linarith)]; linarith)]; ring
-  have hgt : (90 : ℝ) < 360 + x := by linarith
-  unfold parallax_ecliptical
-  simp only [fdiv_ok hd.ne', rho_sinphi_eq wgs84_valid, rho_cosphi_eq wgs84_valid, patan2, psin, pcos, pradians_zero,
-    Real.sin_zero, Real.cos_zero, Real.tan_zero, mul_zero, Real.arctan_zero, zero_div, zero_mul, add_zero, sub_zero,
-    mul_one, one_mul, zero_add, sub_self]
-  rw [← hndef, hz0]
-  have ha0 : angle_of_rad 0 = 0 := by rw [angle_of_rad_small (by simp; positivity)]; simp
-  simp only [ha0, to_positive_nonneg (le_refl (0:ℝ)), pradians_zero, Real.cos_zero, one_mul, ← hz, angle_of_rad_arg, ← hx,
-    to_positive_neg hx2 (by linarith), pabs, hred1, plt, e90, hgt, decide_true, if_true, angle_sub, angle_add, e180, hred2,
-    Real.sin_zero, mul_zero, zero_div]
-  have hn0 : n ≠ 0 := hnpos.ne'
-  simp only [fdiv_ok hn0, zero_div]
-  have : fasin 0 = .ok 0 := by simp [fasin, plt, pasin]
-  simp only [this, ha0]
+  simpa [dec', Function.comp_def] using h3
 
 end Pymeeus.Refine.Parallax
